@@ -12,7 +12,7 @@ import muxcheck
 import muxgen
 
 LEVEL = "proof"
-CONE = ["Props/C13.v", "Proofs/MuxTotal.v", "Model/Writer.v"]
+CONE = ["Props/C13.v", "Props/C13Open.v", "Proofs/MuxTotal.v", "Proofs/MuxOpenBase.v", "Model/Writer.v", "Model/WriterMoov.v"]
 U32 = 1 << 32
 
 
@@ -85,7 +85,9 @@ def big_payload(rep):
     kinds = ["avc"] if rep.tier == "quick" else muxgen.KINDS
     cases = []
     for kind in kinds:
-        for last in ((M - 4096, M + 100) if rep.tier == "quick" else (M - 4096, M - 49, M - 48, M - 47, M + 100)):
+        # last sample sizes placing the payload around the limits: the mdat box (16 + payload) needs the 64-bit form from payload 2^32-16 on
+        # (last >= M-16); chunk offsets (first payload byte at |ftyp| + 16 = 32) reach 2^32 from last >= M-31 on
+        for last in ((M - 4096, M - 17, M - 16, M - 8, M + 100) if rep.tier == "quick" else (M - 4096, M - 49, M - 48, M - 47, M - 33, M - 32, M - 31, M - 17, M - 16, M - 15, M - 8, M - 1, M, M + 100)):
             ops = [{"add": muxgen.tc(kind, ts=1000)}] + [{"w": [1, 1000, 0, i == 0, {"fill": (i % 250) + 1, "len": M, "step": 0}]} for i in range(63)]
             ops.append({"w": [1, 1000, 0, False, {"fill": 7, "len": last, "step": 0}]})
             cases.append({"base": 0, "cfg": dict(muxgen.DEFAULT_CFG, brands=[]), "ops": ops})
@@ -167,4 +169,4 @@ def check(rep):
                           "histories for every track kind whose first chunk offset lands at 2^32-9..2^32+5, 2^40, 2^62 (output starting at a non-zero stream position), "
                           "and whose cumulative media / track / movie durations land at 2^32-2..2^32+1 for six timescale pairs, plus random histories at random "
                           "start positions; read back with the real reader, validated by the independent parser, forms checked; debug and release. "
-                          "Media data just below / above 4 GiB is muxed for real through a sparse stream (64 samples of 64 MiB; read back with the real reader, mdat size form and tiling checked on the real bytes).")
+                          "Media data just below / above 4 GiB is muxed for real through a sparse stream (64 samples of 64 MiB; read back with the real reader, mdat size form and tiling checked on the real bytes).", modules=["C13", "C13Open"])
